@@ -4,6 +4,41 @@ from .state import *
 from . import models
 
 
+class LoopHeadReached(Exception):
+    pass
+
+
+class QWrite:
+    """Quantified write from a loop summary:  for all m with H0[m].<guard_field> == Some(guard_node):  m.<field> := value."""
+
+    def __init__(self, seq, guard_field, guard_node, writes, origin):
+        self.seq, self.guard_field, self.guard_node, self.writes, self.origin = seq, guard_field, guard_node, dict(writes), origin
+
+    def guard(self, I, st, nid, force=True):
+        n = st.nodes[nid]
+        if n.fresh or not n.live0:
+            return False
+        g = st.h0_link(nid, self.guard_field)
+        if g == "unk":
+            if self.guard_field == "parent" and st.anc_query(self.guard_node, nid) is False:
+                return False
+            if not force:
+                return None
+            I.force(st, VLazy(nid, self.guard_field))
+            g = st.h0_link(nid, self.guard_field)
+        return g == self.guard_node
+
+    def apply(self, I, st, nid, f):
+        if f not in self.writes:
+            return None
+        if self.guard(I, st, nid):
+            return self.writes[f]
+        return None
+
+    def __repr__(self):
+        return "forall m: H0[m].%s == %s => %s (%s)" % (self.guard_field, self.guard_node, self.writes, self.origin)
+
+
 class Terminal:
     def __init__(self, kind, st, value=None, msg=None, span=None):
         self.kind = kind          # 'return' | 'panic' | 'undecided'
@@ -14,7 +49,8 @@ class Terminal:
 
 
 class Interp:
-    MAX_STEPS = 6000
+    MAX_STEPS = 3000
+    MAX_BUDGET_FAILS = 12
 
     def __init__(self, prog):
         self.prog = prog
@@ -32,9 +68,14 @@ class Interp:
                 self.impl_index[(f["impl_trait_path"], k.rsplit("::", 1)[-1], sp)] = k
 
     # ------------------------------------------------------------------ exploration
-    def explore(self, init_states, on_terminal):
+    def explore(self, init_states, on_terminal, stop_kind=None):
         work = list(init_states)
+        budget_fails = 0
         while work:
+            if budget_fails >= self.MAX_BUDGET_FAILS:
+                # fail closed, but do not enumerate an unbounded family of identical failures
+                self._finish(Terminal("undecided", work[-1], msg="exploration abandoned: %d paths exhausted the step budget" % budget_fails), on_terminal, work)
+                return
             st = work.pop()
             while True:
                 snap = st.copy()
@@ -42,18 +83,25 @@ class Interp:
                     term = self.run_block(st)
                 except Fork as f:
                     self.forks += 1
-                    for label, fn in f.options:
+                    for label, fn in reversed(f.options):     # explore the simplest refinement (None / existing) first
                         s2 = snap.copy()
                         try:
                             fn(s2)
                             s2.propagate()
                         except Infeasible:
                             continue
+                        except Undecided as u:
+                            self._finish(Terminal("undecided", snap.copy(), msg=str(u)), on_terminal, work)
+                            continue
                         s2.decisions.append(label)
                         work.append(s2)
                     break
                 except Infeasible:
                     break
+                except LoopHeadReached:
+                    if stop_kind is None:
+                        raise
+                    term = Terminal(stop_kind, st)
                 except Panic as p:
                     term = Terminal("panic", st, msg="%s: %s" % (p.kind, p.msg), span=p.span)
                 except Undecided as u:
@@ -63,10 +111,14 @@ class Interp:
                     self._finish(term, on_terminal, work)
                     break
                 if st.steps > self.MAX_STEPS:
+                    budget_fails += 1
                     self._finish(Terminal("undecided", st, msg="step budget exhausted (possible non-terminating loop)"), on_terminal, work)
                     break
 
     def _finish(self, term, on_terminal, work):
+        # individuals existing when the call ended: only these (plus one generic member per quantified write) are
+        # subjects of the post-state checks; neighbours materialised by the checks themselves are covered by symmetry.
+        term.st.meta["base_nodes"] = frozenset(term.st.nodes)
         pend = [term]
         while pend:
             t = pend.pop()
@@ -82,8 +134,14 @@ class Interp:
                         s2.propagate()
                     except Infeasible:
                         continue
+                    except Undecided as u:
+                        pend.append(Terminal("undecided", snap.copy(), msg=str(u)))
+                        continue
                     s2.decisions.append(label)
                     pend.append(Terminal(t.kind, s2, t.value, t.msg, t.span))
+            except Undecided as u:
+                if t.kind != "undecided":
+                    pend.append(Terminal("undecided", snap, msg="post-state check: " + str(u)))
             except Infeasible:
                 pass
 
@@ -171,6 +229,14 @@ class Interp:
         if fr.native is not None:
             raise Undecided("native frame on top without pending call")
         f = self.fns[fr.fnkey]
+        if fr.bb in self.loop_heads(fr.fnkey):
+            stop = st.meta.get("stop_at")
+            if stop is not None and stop == (fr.uid, fr.bb) and st.meta.get("stop_armed"):
+                raise LoopHeadReached()
+            if stop is not None and stop == (fr.uid, fr.bb):
+                st.meta["stop_armed"] = True
+            else:
+                self.at_loop_head(st, fr)
         blk = f["mir"]["blocks"][fr.bb]
         for s in blk["stmts"]:
             k = s["k"]
@@ -178,7 +244,9 @@ class Interp:
                 self.stmts_run += 1
                 v = self.eval_rvalue(st, fr, s["rv"], s.get("span"))
                 self.store_place(st, fr, s["place"], v, s.get("span"))
-            elif k in ("live", "dead", "nop"):
+            elif k == "dead":
+                fr.locals.pop(s["l"], None)
+            elif k in ("live", "nop"):
                 pass
             elif k == "setdisc":
                 raise Undecided("SetDiscriminant")
@@ -370,6 +438,10 @@ class Interp:
                 val = self.update(st, old, path[1:], val)
             n = st.nodes[root[1]]
             n.cur[f] = val
+            st.meta["wseq"] = st.meta.get("wseq", 0) + 1
+            seqs = dict(st.meta.get("cur_seq", {}))
+            seqs[(root[1], f)] = st.meta["wseq"]
+            st.meta["cur_seq"] = seqs
             st.events.append(("write", root[1], f, self.prog.loc(span), st.frames[-1].fnkey if st.frames else None))
             return
         if kind == "arena":
@@ -392,13 +464,15 @@ class Interp:
     # ------------------------------------------------------------------ heap
     def read_node_field(self, st, nid, f):
         n = st.nodes[nid]
+        cseq = st.meta.get("cur_seq", {}).get((nid, f), 0) if f in n.cur else -1
+        # quantified writes from loop summaries that are newer than the explicit write (most recent first)
+        for qw in reversed(st.qwrites):
+            if qw.seq > cseq:
+                r = qw.apply(self, st, nid, f)
+                if r is not None:
+                    return r
         if f in n.cur:
             return n.cur[f]
-        # quantified writes from loop summaries (most recent first)
-        for qw in reversed(st.qwrites):
-            r = qw.apply(self, st, nid, f)
-            if r is not None:
-                return r
         if f in n.h0:
             return n.h0[f]
         if n.fresh:
@@ -991,3 +1065,170 @@ def _generic_iter_value(self, st, ty, cursor):
 
 
 Interp._generic_iter_value = _generic_iter_value
+
+
+# ---------------------------------------------------------------------- loops
+def _loop_heads(self, fnkey):
+    cache = self.__dict__.setdefault("_loop_heads", {})
+    if fnkey not in cache:
+        from ..cfg import CFG
+        cache[fnkey] = {b for (_, b) in CFG(self.fns[fnkey]["mir"]).back_edges()}
+    return cache[fnkey]
+
+
+Interp.loop_heads = _loop_heads
+
+
+def _mentions(v, nid):
+    return ("'%s'" % nid) in repr(vkey(v))
+
+
+def _at_loop_head(self, st, fr):
+    """Cursor-loop summarisation (DESIGN 4.5).  Called on every arrival at a natural-loop head."""
+    visits = dict(st.meta.get("lh", {}))
+    key = (fr.uid, fr.bb)
+    visits[key] = visits.get(key, 0) + 1
+    st.meta["lh"] = visits
+    if visits[key] == 1:
+        first = dict(st.meta.get("lh_first", {}))
+        first[key] = dict(fr.locals)
+        st.meta["lh_first"] = first
+        return
+    if st.meta.get("stop_at") is not None:
+        return      # already inside a probe
+    # candidate cursors: locals holding Some(id of an unconstrained chain member)
+    for l, v in list(fr.locals.items()):
+        if isinstance(v, VLazy) and v.n in st.nodes and v.field in st.nodes[v.n].h0:
+            v = st.nodes[v.n].h0[v.field]       # already materialised: no fork needed
+        if not (isinstance(v, VEnum) and v.adt == OPTION and v.variant == "Some"):
+            continue
+        g = st.node_of_id(v.get("0"))
+        if g is None:
+            continue
+        gr = st.nodes[g]
+        if gr.fresh or gr.cur or not gr.origin.startswith("H0["):
+            continue
+        if self._try_summarise(st, fr, l, g):
+            return
+
+
+Interp.at_loop_head = _at_loop_head
+
+
+def _probe_iteration(self, st, fr, l, k):
+    """Run one iteration of the loop at (fr, fr.bb) on a scratch copy with cursor local l = Some(id k).
+    Returns (scratch state, writes) when control is back at the head; None otherwise."""
+    sc = st.copy()
+    f2 = sc.frames[-1]
+    f2.locals[l] = some(sc.id_of(k))
+    sc.meta["stop_at"] = (f2.uid, f2.bb)
+    sc.meta["stop_armed"] = False
+    nev = len(sc.events)
+    depth = len(sc.frames)
+    try:
+        guard = 0
+        while True:
+            guard += 1
+            if guard > 300:
+                return None
+            t = self.run_block(sc)
+            if t is not None or len(sc.frames) < depth:
+                return None
+    except LoopHeadReached:
+        pass
+    except (Fork, Panic, Undecided, Infeasible):
+        return None
+    if len(sc.frames) != depth:
+        return None
+    return sc, [e for e in sc.events[nev:]]
+
+
+Interp._probe_iteration = _probe_iteration
+
+
+def _try_summarise(self, st, fr, l, g):
+    key = (fr.uid, fr.bb)
+    r = self._probe_iteration(st, fr, l, g)
+    if r is None:
+        return False
+    sc, events = r
+    f2 = sc.frames[-1]
+    # (a) only the cursor local changed, and it now holds the lazy chain field of g
+    newcur = f2.locals.get(l)
+    if not (isinstance(newcur, VLazy) and newcur.n == g and newcur.field in LINKS):
+        return False
+    for k2 in set(fr.locals) | set(f2.locals):
+        if k2 == l:
+            continue
+        a, b = fr.locals.get(k2), f2.locals.get(k2)
+        if a is None or b is None or vkey(a) != vkey(b):
+            return False
+    chain = newcur.field
+    # (b) effect: writes to fields of g only, with loop-invariant values; nothing else
+    writes = {}
+    for e in events:
+        if e[0] == "write" and e[1] == g:
+            val = sc.nodes[g].cur[e[2]]
+            if _mentions(val, g):
+                return False
+            writes[e[2]] = val
+        elif e[0] in ("write", "write-arena", "push", "clear", "drop-data"):
+            return False
+    if chain in writes:
+        return False
+    if sc.len != st.len or len(sc.drops) != len(st.drops):
+        return False
+    # (c) characterise the chain: members = children of x (J4), walk started at first(x)
+    if chain != "next_sibling":
+        return False
+    x = st.h0_link(g, "parent")
+    if x in ("unk", None):
+        return False
+    first_locals = st.meta.get("lh_first", {}).get(key, {})
+    c0v = first_locals.get(l)
+    c0 = st.node_of_id(c0v.get("0")) if isinstance(c0v, VEnum) and c0v.variant == "Some" else None
+    if c0 is None or st.h0_link(c0, "previous_sibling") is not None or st.h0_link(c0, "parent") != x:
+        return False
+    # the H0 chain of x's children must be what the loop walks: no changed next link among (possible) children of x
+    for k, kr in st.nodes.items():
+        if kr.fresh or not kr.live0:
+            continue
+        if "next_sibling" in kr.cur:
+            pk = st.h0_link(k, "parent")
+            if pk == x or (pk == "unk" and st.anc_query(x, k) is not False):
+                cv = kr.cur["next_sibling"]
+                hv = kr.h0.get("next_sibling")
+                if hv is None or vkey(self.force(st, cv)) != vkey(hv):
+                    return False
+    # named children that the loop has not reached yet must behave like the generic member
+    for k, kr in list(st.nodes.items()):
+        if k == g or kr.fresh or not kr.live0:
+            continue
+        pk = st.h0_link(k, "parent")
+        if pk == "unk":
+            if st.anc_query(x, k) is False:
+                continue
+            self.force(st, VLazy(k, "parent"))      # decide (forks)
+            pk = st.h0_link(k, "parent")
+        if pk != x:
+            continue
+        rk = self._probe_iteration(st, fr, l, k)
+        if rk is None:
+            return False
+        sk, ek = rk
+        wk = {e[2]: sk.nodes[k].cur[e[2]] for e in ek if e[0] == "write" and e[1] == k}
+        if set(wk) != set(writes) or any(vkey(wk[f]) != vkey(writes[f]) for f in writes):
+            return False
+        if any(e[0] in ("write", "write-arena", "push", "clear") and not (e[0] == "write" and e[1] == k) for e in ek):
+            return False
+    # apply the summary
+    st.meta["wseq"] = st.meta.get("wseq", 0) + 1
+    qw = QWrite(st.meta["wseq"], "parent", x, writes, "%s loop at bb%d over children of %s" % (fr.fnkey.split("::")[-1], fr.bb, x))
+    st.qwrites.append(qw)
+    fr.locals[l] = none()
+    st.meta["summaries"] = st.meta.get("summaries", ()) + (("cursor-loop", fr.fnkey, chain, x, tuple(sorted(writes))),)
+    st.events.append(("qwrite", x, tuple(sorted(writes)), fr.fnkey))
+    return True
+
+
+Interp._try_summarise = _try_summarise
